@@ -101,10 +101,32 @@ func (x *Exec) loopHead(fr *Frame, li *loopInfo, st *State) *State {
 		// that nothing else changes is an obligation at every back edge
 		env0 := x.envAt(fr, b, st)
 		env0.phiOverride = entryPhi
-		li.excl = x.modCells(env0, spec.Modifies)
+		entryExcl := x.modCells(env0, spec.Modifies)
 		li.written = heaps
-		for _, mt := range spec.Modifies {
-			x.havocTarget(env0, ns, mt)
+		li.needHeadExcl = true
+		// At the head of an arbitrary iteration a heap equals its pre-loop value at every
+		// reference that existed before the loop and is not a modifies target (as evaluated
+		// on loop entry); cells allocated inside the loop, and the targets, are unknown.
+		for _, h := range heaps {
+			srt := x.S.heaps[h]
+			pre, ok := st.Heaps[h]
+			if !ok {
+				continue
+			}
+			if !strings.HasPrefix(srt, "(Array Int ") {
+				if len(entryExcl[h]) > 0 {
+					ns.Heaps[h] = x.declare(h+"@L", srt)
+				}
+				continue
+			}
+			hf := x.declare(h+"@L", srt)
+			conds := []Term{{fmt.Sprintf("(<= r!lh %s)", st.Alloc.S), "Bool"}}
+			for _, r := range entryExcl[h] {
+				conds = append(conds, mkNot(mkEq(Term{"r!lh", "Int"}, r)))
+			}
+			x.assume(Term{fmt.Sprintf("(forall ((r!lh Int)) (! (=> %s (= (select %s r!lh) (select %s r!lh))) :pattern ((select %s r!lh))))",
+				mkAnd(conds...).S, hf.S, pre.S, hf.S), "Bool"})
+			ns.Heaps[h] = hf
 		}
 	} else {
 		for _, h := range heaps {
@@ -132,6 +154,10 @@ func (x *Exec) loopHead(fr *Frame, li *loopInfo, st *State) *State {
 		for _, inv := range spec.Invariants {
 			x.assumeUnder(ns.Guard, x.evalBool(env, inv.E))
 		}
+	}
+	if li.needHeadExcl {
+		// the cells this iteration may change, as named at its head
+		li.excl = x.modCells(x.envAt(fr, b, ns), spec.Modifies)
 	}
 	fr.headSt[b] = ns.clone()
 	return ns
@@ -176,7 +202,7 @@ func (x *Exec) loopBack(fr *Frame, li *loopInfo, from *ssa.BasicBlock) {
 			srt := x.S.heaps[h]
 			var goal Term
 			if strings.HasPrefix(srt, "(Array Int ") {
-				conds := []Term{{fmt.Sprintf("(<= r!lf %s)", head.Alloc.S), "Bool"}}
+				conds := []Term{{fmt.Sprintf("(<= r!lf %s)", head.Alloc.S), "Bool"}, {"(> r!lf 0)", "Bool"}}
 				for _, r := range li.excl[h] {
 					conds = append(conds, mkNot(mkEq(Term{"r!lf", "Int"}, r)))
 				}
@@ -241,8 +267,8 @@ func (x *Exec) varCandidates(fr *Frame, name string) []varCand {
 				}
 			case *ssa.DebugRef:
 				if obj := v.Object(); obj != nil && obj.Name() == name {
-					if _, isVar := obj.(*types.Var); !isVar {
-						continue
+					if tv, isVar := obj.(*types.Var); !isVar || tv.IsField() {
+						continue // struct fields are not local variables
 					}
 					c := varCand{v: v.X, blk: b, idx: i, isAdr: v.IsAddr, obj: obj}
 					// the value is defined where it is defined, not where it is referenced
